@@ -121,49 +121,77 @@ def ev_pred(e, env):
     raise _Unsupported(norm_text(e))
 
 
-def run_body(stmts, env, target, interp, f, S):
-    """abstractly execute the if-chain; returns coefficient (float) of S"""
-    coef = [None]
+def run_body(stmts, env, state, names, iv, jv, interp, f):
+    """abstractly execute one inner loop body for one abstract case.  `state` maps matrix names (their [i, j] entry) and
+    scalar temporaries to normal forms; conditions are decided by ev_pred on the case."""
+    nsym = Rat.sym("n", ("array",))
+    ni, nj = Rat.sym("n_i"), Rat.sym("n_j")
+    gi = Fn("getitem", (nsym, Rat.const(env["i"])))
+    gj = Fn("getitem", (nsym, Rat.const(env["j"])))
+
+    def entry_name(t):
+        """matrix name if t is  NAME[iv, jv]"""
+        if isinstance(t, ast.Subscript) and isinstance(t.value, ast.Name) and t.value.id in names:
+            if norm_text(t.slice).replace(" ", "") in ("%s,%s" % (iv, jv), "(%s,%s)" % (iv, jv)):
+                return t.value.id
+            raise _Unsupported("store into %s at %s (not the loop's own [%s, %s])" % (t.value.id, norm_text(t.slice), iv, jv))
+        return None
+
+    class _Entries(ast.NodeTransformer):
+        """reads of NAME[iv, jv] become reads of the abstract entry"""
+        def visit_Subscript(self, node):
+            if isinstance(node.value, ast.Name) and node.value.id in names and isinstance(node.ctx, ast.Load):
+                nm = entry_name(node)
+                return ast.copy_location(ast.Name(id="__entry_" + nm, ctx=ast.Load()), node)
+            return self.generic_visit(node)
 
     def value(expr):
+        import copy as _copy
         ctx = Ctx(f, None, 0)
-        ctx.locals = {"n", "m", "i", "j"}
-        ni, nj = Rat.sym("n_i"), Rat.sym("n_j")
-        nsym = Rat.sym("n", ("array",))
-        v = interp.ev(expr, {"n": nsym, "i": Rat.const(env["i"]), "j": Rat.const(env["j"])}, ctx)
+        ctx.locals = {"n", "m", "i", "j"} | set(state)
+        e2 = _Entries().visit(_copy.deepcopy(expr))
+        ast.fix_missing_locations(e2)
+        envv = {"n": nsym, iv: Rat.const(env["i"]), jv: Rat.const(env["j"]), "i": Rat.const(env["i"]), "j": Rat.const(env["j"])}
+        for k_, v_ in state.items():
+            if v_ is not None:
+                envv["__entry_" + k_ if k_ in names else k_] = v_
+        v = interp.ev(e2, envv, ctx)
         if not isinstance(v, Rat):
             raise _Unsupported("value %s" % norm_text(expr))
-        gi = Fn("getitem", (nsym, Rat.const(env["i"])))
-        gj = Fn("getitem", (nsym, Rat.const(env["j"])))
-        v = v.subst(lambda a: ni if a == gi else (nj if a == gj else None))
-        r = v.ratio_to(S)
-        if v.is_zero():
-            return 0.0
-        if r is None:
-            raise _Unsupported("entry %s is not a multiple of sqrt((n_i+1)(n_j+1))" % nf(v, 80))
-        return complex(r).real
+        return v.subst(lambda a: ni if a == gi else (nj if a == gj else None))
 
     def block(sts):
         for st in sts:
             if isinstance(st, ast.If):
                 block(st.body if ev_pred(st.test, env) else st.orelse)
-            elif isinstance(st, ast.Assign) and len(st.targets) == 1 and norm_text(st.targets[0]).replace(" ", "") == target:
-                coef[0] = value(st.value)
-            elif isinstance(st, ast.AugAssign) and norm_text(st.target).replace(" ", "") == target and isinstance(st.op, ast.Mult):
-                k = ev_pred(st.value, {})
-                if coef[0] is None:
-                    raise _Unsupported("scaled before assignment")
-                coef[0] = coef[0] * k
+            elif isinstance(st, ast.Assign) and len(st.targets) == 1:
+                t = st.targets[0]
+                nm = entry_name(t)
+                if nm is not None:
+                    state[nm] = value(st.value)
+                elif isinstance(t, ast.Name):
+                    state[t.id] = value(st.value)
+                else:
+                    raise _Unsupported("statement %s" % norm_text(st)[:60])
+            elif isinstance(st, ast.AugAssign):
+                t = st.target
+                nm = entry_name(t) or (t.id if isinstance(t, ast.Name) else None)
+                if nm is None or state.get(nm) is None:
+                    raise _Unsupported("in-place update of %s before it is assigned" % norm_text(t))
+                rhs = value(st.value)
+                state[nm] = interp.binop(st.op, state[nm], rhs)
             elif isinstance(st, ast.Pass):
+                pass
+            elif isinstance(st, ast.Expr) and isinstance(st.value, ast.Constant):
                 pass
             else:
                 raise _Unsupported("statement %s" % norm_text(st)[:60])
     block(stmts)
-    return coef[0]
 
 
 def check(rep, ix, f):
     loops = []
+    mats = set()
     for n in f.node.body:
         if isinstance(n, ast.For) and len(n.body) == 1 and isinstance(n.body[0], ast.For):
             inner = n.body[0]
@@ -173,48 +201,67 @@ def check(rep, ix, f):
                     t = x.targets[0] if isinstance(x, ast.Assign) else x.target
                     if isinstance(t, ast.Subscript) and isinstance(t.value, ast.Name):
                         tgts.add(t.value.id)
-            if len(tgts) == 1:
-                loops.append((n, inner, tgts.pop()))
-    if len(loops) != 2:
-        rep.unknown("Z8.gamma-rules", f.fq, "expected two double loops filling the x and y matrices, found %d" % len(loops), f.where())
-        return
+            if tgts:
+                loops.append((n, inner, tgts))
+                mats |= tgts
     # which matrix is x and which is y: the function returns array([gamx, gamy])
     ret = [n for n in ast.walk(f.node) if isinstance(n, ast.Return)]
     order = []
     if ret and isinstance(ret[-1].value, ast.Call) and ret[-1].value.args and isinstance(ret[-1].value.args[0], (ast.List, ast.Tuple)):
         order = [norm_text(e) for e in ret[-1].value.args[0].elts]
-    if sorted(order) != sorted(l[2] for l in loops) or len(order) != 2:
-        rep.unknown("Z8.gamma-rules", f.fq, "cannot relate the filled matrices %s to the returned pair %s" % ([l[2] for l in loops], order), f.where())
+    if not loops or len(order) != 2 or not set(order) <= mats:
+        rep.unknown("Z8.gamma-rules", f.fq, "cannot relate the matrices filled by double loops %s to the returned pair %s" % (sorted(mats), order), f.where())
         return
     interp = Interp(ix)
     S = rpow((Rat.sym("n_i") + 1) * (Rat.sym("n_j") + 1), 0.5)
-    for outer, inner, name in loops:
-        axis = "x" if order.index(name) == 0 else "y"
+    covered = {nm: False for nm in order}
+    for outer, inner, tg in loops:
         iv, jv = norm_text(outer.target), norm_text(inner.target)
-        rep.check(norm_text(outer.iter).replace(" ", "") == "range(nzmax)" and norm_text(inner.iter).replace(" ", "") == "range(%s+1)" % iv,
-                  "Z8.gamma-loops", "%s: gamma-%s filled for all j' <= j" % (f.fq, axis),
-                  "loops are `for %s in %s: for %s in %s`" % (iv, norm_text(outer.iter), jv, norm_text(inner.iter)), f.where(outer))
-        target = "%s[%s,%s]" % (name, iv, jv)
-        bad = []
-        n_cases = 0
-        try:
-            for (mi, mj, i, j) in CASES:
+        full = norm_text(outer.iter).replace(" ", "") == "range(nzmax)" and norm_text(inner.iter).replace(" ", "") == "range(%s+1)" % iv
+        if not full and tg & set(order):
+            rep.violation("Z8.gamma-loops", "%s: loop over %s" % (f.fq, sorted(tg)),
+                          "loops are `for %s in %s: for %s in %s`: not all entries j' <= j are visited" % (iv, norm_text(outer.iter), jv, norm_text(inner.iter)),
+                          f.where(outer))
+        for nm in tg:
+            if nm in covered and full:
+                covered[nm] = True
+    for nm in order:
+        rep.check(covered[nm], "Z8.gamma-loops", "%s: gamma-%s filled for all j' <= j" % (f.fq, "x" if order.index(nm) == 0 else "y"),
+                  "no double loop over range(nzmax) x range(i+1) assigns %s" % nm, f.where())
+    bad = {"x": [], "y": []}
+    n_cases = 0
+    try:
+        for (mi, mj, i, j) in CASES:
+            state = {nm: None for nm in mats}
+            for outer, inner, tg in loops:
+                iv, jv = norm_text(outer.target), norm_text(inner.target)
                 env = {"m": {i: mi, j: mj}, "i": i, "j": j, iv: i, jv: j}
-                got = run_body(inner.body, env, target, interp, f, S)
+                run_body(inner.body, env, state, mats, iv, jv, interp, f)
+            n_cases += 1
+            for axis, nm in zip(("x", "y"), order):
+                v = state.get(nm)
+                got = None
+                if isinstance(v, Rat):
+                    if v.is_zero():
+                        got = 0.0
+                    else:
+                        r = v.ratio_to(S)
+                        if r is None:
+                            raise _Unsupported("entry %s is not a multiple of sqrt((n_i+1)(n_j+1))" % nf(v, 80))
+                        got = complex(r).real
                 want = noll_entry(axis, mi, mj, i + 1, j + 1)
-                n_cases += 1
                 if got is None or abs(got - want) > 1e-9:
-                    bad.append((mi, mj, (i + 1) % 2, (j + 1) % 2, got, want))
-        except _Unsupported as e:
-            rep.unknown("Z8.gamma-rules", "%s: gamma-%s" % (f.fq, axis), "rule body uses a construct outside the comparison abstraction: %s" % e, f.where(inner))
-            continue
-        if bad:
-            for (mi, mj, pi, pj, got, want) in bad[:6]:
+                    bad[axis].append((mi, mj, (i + 1) % 2, (j + 1) % 2, got, want))
+    except _Unsupported as e:
+        rep.unknown("Z8.gamma-rules", f.fq, "rule body uses a construct outside the comparison abstraction: %s" % e, f.where())
+        return
+    for axis in ("x", "y"):
+        if bad[axis]:
+            for (mi, mj, pi, pj, got, want) in bad[axis][:6]:
                 rep.violation("Z8.gamma-rules", "%s: gamma-%s entry for m=%d, m'=%d, j %s, j' %s" % (f.fq, axis, mi, mj, "odd" if pi else "even", "odd" if pj else "even"),
                               "d/d%s of a mode with m=%d (Noll index %s) on a mode with m'=%d (index %s): the code gives %s x sqrt((n+1)(n'+1)), "
                               "Noll's rules give %s" % (axis, mi, "odd" if pi else "even", mj, "odd" if pj else "even",
-                                                       "%.4g" % got if got is not None else "no value", "%.4g" % want), f.where(inner))
+                                                       "%.4g" % got if got is not None else "no value", "%.4g" % want), f.where())
         else:
             rep.ok("Z8.gamma-rules", "%s: gamma-%s agrees with Noll's rules on all %d abstract cases" % (f.fq, axis, n_cases))
-    # mode list: (n, m) enumerated in Noll order with two entries for m > 0
     rep.sample({"gamma_cases": len(CASES)})
